@@ -1,4 +1,5 @@
 import GceTcb.Proofs.RotateFinal
+import GceTcb.Proofs.RotateKms
 /-
 C10 — Signing-key rotation is failure-atomic.
 Property theorems only (the program logic and the step specifications live in Proofs/Hoare.lean,
@@ -166,6 +167,297 @@ example :
     let r := rotateKey (demoCfg .memca) ⟨"sig", 3⟩ sc demoM.reload
     r.tag = "crash" ∧ primaryOf (demoCfg .memca) r.state = "sk_n" ∧ lookup r.state.keys "sk" = none ∧
     primaryOKb (demoCfg .memca) r.state.reload = true ∧ r.state.log.length = 14 := by
+  decide
+
+/-! ## the Cloud KMS stack (gcpkms.Manager + gcpkms.Signer, deferred authority)
+
+`rotateKeyKms` (Model/RotateKms.lean) is rotate.Key with keys/gcpkms underneath: every Cloud KMS client call
+(CreateCryptoKeyVersion, every GetCryptoKeyVersion poll, GetPublicKey, AsymmetricSign,
+DestroyCryptoKeyVersion) is a numbered fault position nested inside the manager / signer call that makes
+it.  The theorems quantify over ALL fault scripts and ALL environments `env` (how many polls a new version
+stays PENDING_GENERATION, what it turns into — ENABLED, DISABLED, DESTROYED, GENERATION_FAILED —, whether
+the context expires during the wait, whether the AsymmetricSign response fails an integrity check).
+
+What became of the hypotheses of the nonprod theorems: `BumpOK` (the new name differs from the current one
+and is not empty) and the clause `broot` of `Inv` (the manager never hands out the root's name) are no
+longer assumed — they follow from the naming scheme `<cryptoKey>/cryptoKeyVersions/<count+1>` and the
+hygiene `KHyg` of the key service (no usable key carries a number the cryptoKey has not handed out), which
+is part of `InvKms` and is PRESERVED by every run (`C10_kms_primary_live`); see `C10_kms_names_fresh`.
+`Fresh` stays (as `FreshKms`), `cfg.ca = .gcsca` restricts to the shipped authority. -/
+
+/-- **The naming scheme discharges `BumpOK` / `broot`.**  In a state satisfying the invariant the name the
+    next CreateCryptoKeyVersion hands out is not the name of a usable key — in particular neither the
+    recorded primary nor the root —, it is not empty, and it differs from every name handed out before
+    (version numbers strictly increase, distinct numbers give distinct names). -/
+theorem C10_kms_names_fresh (cfg : Cfg) (env : KmsEnv) (s : St) (hca : cfg.ca = .gcsca) (hi : InvKms cfg env s) :
+    lookup s.keys (nextName env s) = none ∧ nextName env s ≠ primaryOf cfg s ∧ nextName env s ≠ "" ∧
+    (∀ m r c p, InvG cfg.kmsView m r c p s → nextName env s ≠ m.root) ∧
+    (∀ n, n ≤ s.kcount → verName env.parent n ≠ nextName env s) := by
+  have hn := hi.2.next_not_live
+  refine ⟨hn, ?_, verName_ne_empty _ _, ?_, ?_⟩
+  · have h1 := hi.1
+    unfold Inv at h1
+    rw [show cfg.kmsView.ca = CAKind.gcsca from hca] at h1
+    obtain ⟨m, r, c, p, h⟩ := h1
+    unfold primaryOf
+    rw [hca, h.man]
+    intro e
+    rw [e, h.kprim] at hn
+    cases hn
+  · intro m r c p h e
+    rw [e, h.kroot] at hn
+    cases hn
+  · intro n hle e
+    have := verName_inj _ _ _ e
+    omega
+
+/-- **Failure atomicity on the Cloud KMS stack.**  Whatever faults and crash the script injects into one
+    rotation and whatever Cloud KMS does with the new version, the state that survives — reloaded through
+    a fresh authority instance — satisfies the invariant again: the recorded primary is an ENABLED
+    version, its certificate is stored, is for that key and verifies under the stored root; and the key
+    service's hygiene holds again. -/
+theorem C10_kms_primary_live (cfg : Cfg) (env : KmsEnv) (req : Req) (sc : Nat → Fault) (s : St)
+    (hca : cfg.ca = .gcsca) (hi : InvKms cfg env s) (hf : FreshKms cfg env req s) :
+    InvKms cfg env (rotateKeyKms cfg env req sc s.reload).state.reload := by
+  have := rotateKms_run_facts cfg env req sc s hca hi hf
+  rw [InvKms_reload]
+  cases hr : rotateKeyKms cfg env req sc s.reload with
+  | ok k s' => rw [hr] at this; exact this.1
+  | err s' => rw [hr] at this; exact this.1.1
+  | crash s' => rw [hr] at this; exact this.1.1
+
+/-- … in the words of the property: endorsing keeps working with the recorded primary. -/
+theorem C10_kms_primary_usable (cfg : Cfg) (env : KmsEnv) (req : Req) (sc : Nat → Fault) (s : St)
+    (hca : cfg.ca = .gcsca) (hi : InvKms cfg env s) (hf : FreshKms cfg env req s) :
+    PrimaryOK cfg (rotateKeyKms cfg env req sc s.reload).state.reload :=
+  (C10_kms_primary_live cfg env req sc s hca hi hf).primaryOK
+
+/-- **Destroy after commit, at both levels.**  In the call log of every run a DestroyKeyVersion that
+    reached the manager, and a DestroyCryptoKeyVersion request that reached Cloud KMS, is preceded by the
+    completed Close of the manifest object that records the new primary. -/
+theorem C10_kms_destroy_after_commit (cfg : Cfg) (env : KmsEnv) (req : Req) (sc : Nat → Fault) (s : St)
+    (hca : cfg.ca = .gcsca) (hi : InvKms cfg env s) (hf : FreshKms cfg env req s) :
+    DAC cfg (rotateKeyKms cfg env req sc s.reload).state.log ∧
+    DACK cfg (rotateKeyKms cfg env req sc s.reload).state.log := by
+  have := rotateKms_run_facts cfg env req sc s hca hi hf
+  cases hr : rotateKeyKms cfg env req sc s.reload with
+  | ok k s' => rw [hr] at this; exact ⟨this.2.1, this.2.2.1⟩
+  | err s' => rw [hr] at this; exact this.1.2
+  | crash s' => rw [hr] at this; exact this.1.2
+
+/-- … on the surviving state: the old primary can have stopped being usable (DESTROY_SCHEDULED) only if
+    the stored manifest no longer names it. -/
+theorem C10_kms_old_destroyed_only_if_replaced (cfg : Cfg) (env : KmsEnv) (req : Req) (sc : Nat → Fault) (s : St)
+    (hca : cfg.ca = .gcsca) (hi : InvKms cfg env s) (hf : FreshKms cfg env req s)
+    (hgone : lookup (rotateKeyKms cfg env req sc s.reload).state.keys (primaryOf cfg s) = none) :
+    primaryOf cfg (rotateKeyKms cfg env req sc s.reload).state ≠ primaryOf cfg s := by
+  have h := C10_kms_primary_usable cfg env req sc s hca hi hf
+  unfold PrimaryOK at h
+  rw [hca] at h
+  obtain ⟨m, r, c, path, h1, _, _, _, h5, _⟩ := h
+  intro e
+  have hp : primaryOf cfg (rotateKeyKms cfg env req sc s.reload).state = m.signing := by
+    unfold primaryOf
+    rw [hca]
+    have h1' : lookup (rotateKeyKms cfg env req sc s.reload).state.store manifestName = some (.manifest m) := h1
+    rw [h1']
+  rw [← e, hp] at hgone
+  have h5' : lookup (rotateKeyKms cfg env req sc s.reload).state.keys m.signing = some c.pub := h5
+  rw [h5'] at hgone
+  cases hgone
+
+/-- **A rotation that reports success has retired the old version**: whatever the script and the
+    environment, when rotate.Key returns normally the previous primary is no longer usable and is
+    DESTROY_SCHEDULED, the returned name is the next version name, and it is the recorded primary. -/
+theorem C10_kms_success_retires_old (cfg : Cfg) (env : KmsEnv) (req : Req) (sc : Nat → Fault) (s : St)
+    (hca : cfg.ca = .gcsca) (hi : InvKms cfg env s) (hf : FreshKms cfg env req s)
+    (k : String) (s' : St) (hr : rotateKeyKms cfg env req sc s.reload = .ok k s') :
+    k = nextName env s ∧ primaryOf cfg s' = k ∧ lookup s'.keys (primaryOf cfg s) = none ∧
+    lookup s'.kdead (primaryOf cfg s) = some .scheduled := by
+  have := rotateKms_run_facts cfg env req sc s hca hi hf
+  rw [hr] at this
+  exact ⟨this.2.2.2.2.1, this.2.2.2.1, this.2.2.2.2.2.1, this.2.2.2.2.2.2⟩
+
+/-- a fault-free rotation with overwrite allowed in a benign environment (any generation countdown)
+    succeeds from any good state and returns the next version name -/
+theorem C10_kms_fault_free_succeeds (cfg : Cfg) (env : KmsEnv) (req : Req) (s : St) (how : cfg.overwrite = true)
+    (hben : env.benign = true) (hca : cfg.ca = .gcsca) (hi : InvKms cfg env s) (hf : FreshKms cfg env req s) :
+    ∃ k s', rotateKeyKms cfg env req noFault s.reload = .ok k s' ∧ InvKms cfg env s'.reload ∧
+      primaryOf cfg s' = k ∧ k = nextName env s := by
+  have := rotateKms_run_facts cfg env req noFault s hca hi hf
+  cases hr : rotateKeyKms cfg env req noFault s.reload with
+  | ok k s' =>
+    rw [hr] at this
+    exact ⟨k, s', rfl, (InvKms_reload cfg env s').mpr this.1, this.2.2.2.1, this.2.2.2.2.1⟩
+  | err s' =>
+    rw [hr] at this
+    rcases this.2 with h | h | h
+    · exact absurd noFault_noFault h
+    · rw [how] at h; cases h
+    · rw [hben] at h; cases h
+  | crash s' =>
+    rw [hr] at this
+    exact absurd noFault_noFault this.2
+
+/-- **Retry succeeds.**  After a rotation that was hit by any faults in any environment — leaving, e.g., a
+    PENDING_GENERATION, DISABLED or unreferenced ENABLED version behind —, a later fault-free rotation in
+    a benign environment that is allowed to overwrite succeeds, returns a version name that did not exist
+    before, records it as primary, and the invariant holds again. -/
+theorem C10_kms_retry_succeeds (cfg : Cfg) (env env' : KmsEnv) (req req' : Req) (sc : Nat → Fault) (s : St)
+    (hpar : env'.parent = env.parent) (hben : env'.benign = true)
+    (hca : cfg.ca = .gcsca) (hi : InvKms cfg env s) (hf : FreshKms cfg env req s)
+    (hf' : FreshKms cfg.allowOverwrite env' req' (rotateKeyKms cfg env req sc s.reload).state.reload) :
+    ∃ k s', rotateKeyKms cfg.allowOverwrite env' req' noFault (rotateKeyKms cfg env req sc s.reload).state.reload = .ok k s' ∧
+      InvKms cfg env' s'.reload ∧ primaryOf cfg s' = k ∧
+      k = nextName env' (rotateKeyKms cfg env req sc s.reload).state.reload := by
+  have h1 := C10_kms_primary_live cfg env req sc s hca hi hf
+  have h1' : InvKms cfg.allowOverwrite env' (rotateKeyKms cfg env req sc s.reload).state.reload := by
+    refine (InvKms_allowOverwrite cfg env' _).mpr ⟨h1.1, ?_⟩
+    intro n hn
+    have := h1.2 n hn
+    rw [hpar]; exact this
+  obtain ⟨k, s', hr, hinv, hp, hk⟩ := C10_kms_fault_free_succeeds cfg.allowOverwrite env' req' _ rfl hben hca h1' hf'
+  refine ⟨k, s', ?_, (InvKms_allowOverwrite cfg env' _).mp hinv, hp, hk⟩
+  have : (rotateKeyKms cfg env req sc s.reload).state.reload.reload = (rotateKeyKms cfg env req sc s.reload).state.reload := rfl
+  rw [this] at hr
+  exact hr
+
+/-- `FreshKms` in the usual situation: the stored manifest does not list the next version name (Cloud KMS has
+    never handed it out), so the certificate goes to `<certDir><cn>-<serial>.crt`, and that object is not
+    one the durable state depends on (with the CLI's default serial it is new or a leftover). -/
+theorem C10_kms_fresh_of_unlisted (cfg : Cfg) (env : KmsEnv) (req : Req) (s : St) (hca : cfg.ca = .gcsca)
+    (h : ∀ m, lookup s.store manifestName = some (.manifest m) →
+      lookup m.entries (nextName env s) = none ∧ objName cfg req ≠ manifestName ∧ objName cfg req ≠ cfg.rootPath ∧
+      ∀ p, lookup m.entries m.signing = some p → objName cfg req ≠ p) :
+    FreshKms cfg env req s := by
+  unfold FreshKms Fresh
+  rw [show (cfg.withNew (nextName env s)).ca = CAKind.gcsca from hca]
+  intro m hm
+  obtain ⟨h1, h2, h3, h4⟩ := h m hm
+  have ht : target (cfg.withNew (nextName env s)) req m = objName cfg req := by
+    unfold target
+    show (lookup m.entries (nextName env s)).getD _ = _
+    rw [h1]; rfl
+  rw [ht]
+  exact ⟨h2, h3, h4⟩
+
+/-! ### the order matters on this stack too -/
+
+/-- a good durable state of the Cloud KMS stack: root key "root" (material 0), signing cryptoKey "sk" with
+    its first version ENABLED (material 1) and certified as sigcn-2, as left by a bootstrap -/
+def demoK : St :=
+  { St.init with
+    keys := [("sk/cryptoKeyVersions/1", 1), ("root", 0)], nextMat := 2, kcount := 1,
+    store := [(manifestName, .manifest ⟨[("root", "certs/rootcn-1.crt"), ("sk/cryptoKeyVersions/1", "certs/sigcn-2.crt")],
+                "root", "sk/cryptoKeyVersions/1"⟩),
+              ("root.crt", .pem ⟨"rootcn", 1, 0, 0⟩),
+              ("certs/sigcn-2.crt", .der ⟨"sigcn", 2, 1, 0⟩),
+              ("certs/rootcn-1.crt", .der ⟨"rootcn", 1, 0, 0⟩)] }
+
+def demoEnv : KmsEnv := { parent := "sk" }
+
+theorem demoK_inv : InvKms (demoCfg .gcsca) demoEnv demoK := by
+  refine ⟨?_, ?_⟩
+  · refine ⟨⟨[("root", "certs/rootcn-1.crt"), ("sk/cryptoKeyVersions/1", "certs/sigcn-2.crt")], "root", "sk/cryptoKeyVersions/1"⟩,
+      ⟨"rootcn", 1, 0, 0⟩, ⟨"sigcn", 2, 1, 0⟩, "certs/sigcn-2.crt", ?_⟩
+    exact ⟨by decide, by decide, by decide, by decide, by decide, by decide, by decide, by decide, by decide,
+      by decide, by decide, by decide, fun _ => by show ("" : String) ≠ "root"; decide⟩
+  · intro n hn
+    have hn' : 1 < n := hn
+    show lookup [("sk/cryptoKeyVersions/1", 1), ("root", 0)] (verName "sk" n) = none
+    have h1 : "sk/cryptoKeyVersions/1" ≠ verName "sk" n := by
+      intro e
+      have : verName "sk" 1 = verName "sk" n := e
+      have := verName_inj _ _ _ this
+      omega
+    have h2 : "root" ≠ verName "sk" n := by
+      intro e
+      have hl := congrArg String.toList e
+      unfold verName at hl
+      simp only [String.toList_append] at hl
+      have h1 : "root".toList = ['r', 'o', 'o', 't'] := by decide
+      have h2 : "sk".toList = ['s', 'k'] := by decide
+      rw [h1, h2] at hl
+      simp at hl
+    simp [lookup, h1, h2]
+
+theorem demoK_fresh : FreshKms (demoCfg .gcsca) demoEnv ⟨"sig", 3⟩ demoK := by
+  refine C10_kms_fresh_of_unlisted _ _ _ _ rfl ?_
+  intro m hm
+  have : m = ⟨[("root", "certs/rootcn-1.crt"), ("sk/cryptoKeyVersions/1", "certs/sigcn-2.crt")], "root", "sk/cryptoKeyVersions/1"⟩ := by
+    have h : lookup demoK.store manifestName =
+        some (.manifest ⟨[("root", "certs/rootcn-1.crt"), ("sk/cryptoKeyVersions/1", "certs/sigcn-2.crt")], "root", "sk/cryptoKeyVersions/1"⟩) := by decide
+    rw [h] at hm
+    injection hm with hm
+    injection hm with hm
+    exact hm.symm
+  subst this
+  refine ⟨by decide, by decide, by decide, ?_⟩
+  intro p hp
+  have : p = "certs/sigcn-2.crt" := by
+    have h : lookup [("root", "certs/rootcn-1.crt"), ("sk/cryptoKeyVersions/1", "certs/sigcn-2.crt")] "sk/cryptoKeyVersions/1" = some "certs/sigcn-2.crt" := by decide
+    simp only at hp
+    rw [h] at hp
+    injection hp with hp
+    exact hp.symm
+  subst this
+  decide
+
+/-- **Destroying before Finalize breaks the invariant on the Cloud KMS stack**: with the destroy request
+    moved in front of Finalize, ONE failed storage call (position 27: Close of the manifest object) leaves
+    the stored manifest naming a version that is already DESTROY_SCHEDULED — from a state that satisfies
+    every hypothesis of `C10_kms_primary_live`. -/
+theorem C10_kms_early_destroy_breaks :
+    InvKms (demoCfg .gcsca) demoEnv demoK ∧ FreshKms (demoCfg .gcsca) demoEnv ⟨"sig", 3⟩ demoK ∧
+    ¬ PrimaryOK (demoCfg .gcsca)
+      (rotateKeyKmsEarlyDestroy (demoCfg .gcsca) demoEnv ⟨"sig", 3⟩ (failAt 27) demoK.reload).state.reload := by
+  refine ⟨demoK_inv, demoK_fresh, ?_⟩
+  intro h
+  have := primaryOKb_of _ _ h
+  revert this
+  decide
+
+/-! ### non-vacuity (Cloud KMS stack) -/
+
+/-- Non-vacuity of `C10_kms_primary_live` / `C10_kms_destroy_after_commit`: the hypotheses hold for `demoK`
+    (`demoK_inv`, `demoK_fresh`); the rotation under the single fault that breaks the early-destroy order
+    (Close of the manifest fails: position 25 here) ends in an error with BOTH versions ENABLED, the old
+    one still recorded, no destroy call in the log; a failed poll (position 2) leaves version 2
+    PENDING_GENERATION and the fault-free retry hands out version 3, never reusing the leftover's name. -/
+example :
+    let r := rotateKeyKms (demoCfg .gcsca) demoEnv ⟨"sig", 3⟩ (failAt 25) demoK.reload
+    r.tag = "err" ∧ lookup r.state.keys "sk/cryptoKeyVersions/1" = some 1 ∧
+    lookup r.state.keys "sk/cryptoKeyVersions/2" = some 2 ∧
+    primaryOf (demoCfg .gcsca) r.state = "sk/cryptoKeyVersions/1" ∧ primaryOKb (demoCfg .gcsca) r.state.reload = true ∧
+    r.state.log.length = 26 := by
+  decide
+
+example :
+    let r := rotateKeyKms (demoCfg .gcsca) { demoEnv with gen := 1 } ⟨"sig", 3⟩ (failAt 2) demoK.reload
+    let r2 := rotateKeyKms (demoCfg .gcsca).allowOverwrite demoEnv ⟨"sig", 3⟩ noFault r.state.reload
+    r.tag = "err" ∧ lookup r.state.kdead "sk/cryptoKeyVersions/2" = some (.pending 1) ∧ r.state.kcount = 2 ∧
+    r2.tag = "ok" ∧ primaryOf (demoCfg .gcsca) r2.state = "sk/cryptoKeyVersions/3" ∧
+    lookup r2.state.keys "sk/cryptoKeyVersions/1" = none ∧
+    lookup r2.state.kdead "sk/cryptoKeyVersions/1" = some .scheduled ∧
+    lookup r2.state.kdead "sk/cryptoKeyVersions/2" = some (.pending 1) ∧
+    primaryOKb (demoCfg .gcsca) r2.state.reload = true := by
+  decide
+
+/-- … a destroy request that fails after the commit (position 27) leaves the OLD version ENABLED beside the
+    new primary — allowed by the property (destroyed ONLY after, not necessarily); a corrupted AsymmetricSign
+    response and a version that ends up DISABLED stop the rotation before anything durable changed. -/
+example :
+    let r := rotateKeyKms (demoCfg .gcsca) demoEnv ⟨"sig", 3⟩ (failAt 27) demoK.reload
+    r.tag = "err" ∧ primaryOf (demoCfg .gcsca) r.state = "sk/cryptoKeyVersions/2" ∧
+    lookup r.state.keys "sk/cryptoKeyVersions/1" = some 1 ∧ primaryOKb (demoCfg .gcsca) r.state.reload = true := by
+  decide
+
+example :
+    let r := rotateKeyKms (demoCfg .gcsca) { demoEnv with corrupt := true } ⟨"sig", 3⟩ noFault demoK.reload
+    let r' := rotateKeyKms (demoCfg .gcsca) { demoEnv with final := some .disabled } ⟨"sig", 3⟩ noFault demoK.reload
+    r.tag = "err" ∧ r.state.log.length = 16 ∧ primaryOKb (demoCfg .gcsca) r.state.reload = true ∧
+    r'.tag = "err" ∧ r'.state.log.length = 3 ∧ lookup r'.state.kdead "sk/cryptoKeyVersions/2" = some .disabled ∧
+    primaryOKb (demoCfg .gcsca) r'.state.reload = true := by
   decide
 
 end GceTcb.CA
